@@ -33,6 +33,8 @@ def main():
             if reach is not None:
                 reach.stop()
                 result['reach'] = reach.result()
+        for e in monitor.ERRORS:
+            ctx.note_inconclusive(e)
         result.update(ctx.dump())
         result['status'] = 'ok'
     except BaseException as e:  # harness failure -> inconclusive, never a verdict
